@@ -566,6 +566,7 @@ whose Python validate is itself clean. -/
 def TraitType.soundClean : TraitType → Bool
   | .tuple items => soundCleanL items
   | .baseTuple items => soundCleanL items
+  | .validatedTuple items _ => soundCleanL items
   | .either alts _ => soundCleanL alts
   | .union alts => soundCleanL alts
   | .compoundH hs => soundCleanL hs
@@ -579,6 +580,7 @@ F40; none of the leaves whose Python method differs from the C validator). -/
 def TraitType.pyClean : TraitType → Bool
   | .tuple _ => true
   | .baseTuple _ => true
+  | .validatedTuple .. => true
   | .either alts _ => pyCleanL alts
   | .union _ => true
   | .compoundH hs => pyCleanL hs
@@ -869,6 +871,65 @@ theorem soundP_baseTuple (items : List TraitType) (hQ : SoundQ E items) : SoundP
   · intro hc _ v w h
     exact hpy v w (by simpa [TraitType.soundClean] using hc) h
 
+theorem soundP_validatedTuple (items : List TraitType) (fv : Option Nat) (hQ : SoundQ E items) :
+    SoundP E (.validatedTuple items fv) := by
+  obtain ⟨_, _, _, _, q5⟩ := hQ
+  have hpy : ∀ v w, soundCleanL items = true → pyValidate E (.validatedTuple items fv) v = .ok w →
+      Good E (.validatedTuple items fv) v w := by
+    intro v w hc h
+    simp only [pyValidate] at h
+    -- both the tuple and the list input go through the same element loop
+    have key : ∀ vs, (vs.length = items.length) → ∀ ws, ctraitValidateL E items vs = .ok ws →
+        (match fv with
+          | none => Res.ok (.tuple false ws)
+          | some f =>
+            match E.pred f (.tuple false ws) with
+            | .ok true => Res.ok (.tuple false ws)
+            | .ok false => Res.traitError
+            | .error e => Res.raised e) = .ok w →
+        inDomain E (.validatedTuple items fv) w = true ∧ ConvL E items vs ws ∧ w = .tuple false ws := by
+      intro vs hl ws hr hres
+      obtain ⟨h1, h2⟩ := q5 hc vs ws hr hl.symm
+      cases fv with
+      | none => simp at hres; subst hres; exact ⟨by simp [inDomain, h1], h2, rfl⟩
+      | some f =>
+        simp only at hres
+        cases hp : E.pred f (.tuple false ws) with
+        | error e => simp [hp] at hres
+        | ok b =>
+          cases b with
+          | false => simp [hp] at hres
+          | true => simp [hp] at hres; subst hres; exact ⟨by simp [inDomain, h1, hp], h2, rfl⟩
+    rcases v with a | ⟨sub, vs⟩ | vs
+    · simp at h
+    · simp only at h
+      by_cases hl : vs.length = items.length
+      · simp only [hl, if_true] at h
+        cases hr : ctraitValidateL E items vs with
+        | error x => simp [hr] at h
+        | ok ws =>
+          simp only [hr] at h
+          obtain ⟨h1, h2, rfl⟩ := key vs hl ws hr h
+          exact ⟨h1, by simpa [Conv] using h2⟩
+      · simp [hl] at h
+    · simp only at h
+      by_cases hl : vs.length = items.length
+      · simp only [hl, if_true] at h
+        cases hr : ctraitValidateL E items vs with
+        | error x => simp [hr] at h
+        | ok ws =>
+          simp only [hr] at h
+          obtain ⟨h1, h2, rfl⟩ := key vs hl ws hr h
+          exact ⟨h1, by simpa [Conv] using h2⟩
+      · simp [hl] at h
+  refine ⟨?_, ?_, ?_⟩
+  · intro _ d v w x hd; simp [descOf] at hd
+  · intro hc v w h
+    exact hpy v w (by simpa [TraitType.soundClean] using hc)
+      (by simpa [ctraitValidate, ctraitValidateWith, descOf, hasPy] using h)
+  · intro hc _ v w h
+    exact hpy v w (by simpa [TraitType.soundClean] using hc) h
+
 theorem soundP_union (alts : List TraitType) (hQ : SoundQ E alts) : SoundP E (.union alts) := by
   obtain ⟨_, _, _, q4, _⟩ := hQ
   have hpy : ∀ v w, soundCleanL alts = true → pyValidate E (.union alts) v = .ok w →
@@ -1078,6 +1139,7 @@ theorem soundP_all (hE : EnvOK E) : ∀ t, SoundP E t :=
       cases t <;> simp [TraitType.subs] at hs
       case tuple items => subst hs; exact soundP_tuple E items hQ
       case baseTuple items => subst hs; exact soundP_baseTuple E items hQ
+      case validatedTuple items fv => subst hs; exact soundP_validatedTuple E items fv hQ
       case either alts wn => subst hs; exact soundP_either E hE alts wn hQ
       case union alts => subst hs; exact soundP_union E alts hQ
       case compoundH hs' => subst hs; exact soundP_compoundH E hE hs' hQ)
